@@ -1,11 +1,15 @@
-"""C16 — SPARQL results survive their exchange formats (engine K; partial: the SPARQL-JSON object mapping only).
+"""C16 — SPARQL results survive their exchange formats (engine K; partial: the object / infoset mappings of SPARQL-JSON and SPARQL-XML).
 
 The four codecs end in C code (json / expat / csv) or in a pyparsing grammar over term contents, and rdflib terms cannot carry
-symbolic contents.  What can be decided: the *mapping* between result tables and SPARQL-JSON objects — termToJSON, _bindingToJSON,
-JSONResultSerializer.serialize up to the json.dumps call, and JSONResult / _get_bindings / parseJsonTerm from the json.loads result
-on — with the term classes of the module replaced by recorders whose lexical form, language tag and datatype are symbolic strings,
-and json.dumps / json.loads replaced by a structural copy that accepts exactly what JSON can represent.  JSON text itself, SPARQL
-XML, CSV and TSV are NOT claimed.
+symbolic contents.  What can be decided is the *mapping* between result tables and the two structured formats:
+ * SPARQL-JSON: termToJSON, _bindingToJSON, JSONResultSerializer.serialize up to the json.dumps call, and JSONResult / _get_bindings /
+   parseJsonTerm from the json.loads result on, with json.dumps / json.loads replaced by a structural copy that accepts exactly what
+   JSON can represent;
+ * SPARQL-XML: XMLResultSerializer / SPARQLXMLWriter with xml.sax's XMLGenerator replaced by a recorder of the element structure, and
+   XMLResult / parseTerm reading that recorded tree through the ElementTree interface they use (text None for an element without
+   character data, attribute values as strings);
+in both cases with the term classes of the module replaced by recorders whose lexical form, language tag and datatype are symbolic
+strings.  The text level of either format (escaping, encodings, XMLGenerator, expat, json), CSV and TSV are NOT claimed.
 """
 PROPERTY = "C16"
 FUNCTIONS = [
@@ -13,12 +17,16 @@ FUNCTIONS = [
     "rdflib.plugins.sparql.results.jsonresults.JSONResultSerializer.serialize (up to json.dumps) / _bindingToJSON",
     "rdflib.plugins.sparql.results.jsonresults.JSONResult.__init__ / _get_bindings (from json.loads on)",
     "rdflib.query.Result.__init__ / bindings setter",
+    "rdflib.plugins.sparql.results.xmlresults.XMLResultSerializer.serialize", "rdflib.plugins.sparql.results.xmlresults.SPARQLXMLWriter (all methods)",
+    "rdflib.plugins.sparql.results.xmlresults.XMLResult.__init__ (from the parsed tree on)", "rdflib.plugins.sparql.results.xmlresults.parseTerm",
 ]
 STUBS = ["the names URIRef, Literal, BNode of the jsonresults module are bound to recorder classes for the duration of a path (a real "
          "term would realise its symbolic content in str.__new__); Variable stays the real class (variable names are concrete)",
          "json.dumps / json.loads of the module are replaced by a structural copy: dict (keys through str()), list, str, bool, None; "
          "anything else raises TypeError as json.dumps would",
-         "the Result handed to the serializer is a record with type / vars / bindings / askAnswer"]
+         "the Result handed to the serializer is a record with type / vars / bindings / askAnswer",
+         "xmlresults.XMLGenerator is a recorder of startElementNS / characters / endElementNS; xmlresults.xml_etree.parse hands the recorded "
+         "tree to XMLResult through a minimal element class (tag, text, get, iteration, indexing, find, findall)"]
 ASSUMPTIONS = ["the orjson branch is not exercised (orjson is not installed in this environment)"]
 
 
@@ -35,7 +43,9 @@ class RecTerm:
 
     def __bool__(self):
         # rdflib terms are str subclasses: a term with empty text is falsy
-        return len(self.text) > 0
+        if len(self.text) > 0:
+            return True
+        return False
 
     def same(self, o):
         if not isinstance(o, RecTerm) or o.kind != self.kind:
@@ -243,7 +253,238 @@ def k_json_ask(desc, F, x):
     return _with_module(run)
 
 
-BODIES = {"k-json-term": k_json_term, "k-json-table": k_json_table, "k-json-ask": k_json_ask}
+# ---- SPARQL XML: the mapping between result tables and the XML infoset --------------------------------------------------
+class RecGen:
+    """stands for xml.sax.saxutils.XMLGenerator: records the element structure the writer produces"""
+
+    def __init__(self, out=None, encoding="utf-8", *a, **kw):
+        self.root = None
+        self.stack = []
+
+    def startDocument(self):
+        pass
+
+    def endDocument(self):
+        pass
+
+    def startPrefixMapping(self, prefix, uri):
+        pass
+
+    def endPrefixMapping(self, prefix):
+        pass
+
+    def startElementNS(self, name, qname, attrs):
+        ns, local = name
+        el = El("{%s}%s" % (ns, local) if ns else local)
+        for (ans, alocal) in attrs.keys():
+            v = attrs[(ans, alocal)]
+            el.attrib["{%s}%s" % (ans, alocal) if ans else alocal] = v if isinstance(v, str) else str(v)
+        if self.stack:
+            self.stack[len(self.stack) - 1].children.append(el)
+        else:
+            self.root = el
+        self.stack.append(el)
+
+    def endElementNS(self, name, qname):
+        ns, local = name
+        el = self.stack.pop()
+        if el.tag != ("{%s}%s" % (ns, local) if ns else local):
+            raise ValueError("XML writer closes %s inside %s" % (local, el.tag))
+
+    def characters(self, content):
+        el = self.stack[len(self.stack) - 1]
+        el.chunks.append(content if isinstance(content, str) or not isinstance(content, RecTerm) else str(content))
+
+    def ignorableWhitespace(self, content):
+        pass
+
+
+class El:
+    """the part of the ElementTree element / tree interface that XMLResult and parseTerm use"""
+
+    def __init__(self, tag):
+        self.tag = tag
+        self.attrib = {}
+        self.children = []
+        self.chunks = []
+
+    @property
+    def text(self):
+        # an XML parser reports an element without character data as text None
+        t = ""
+        for c in self.chunks:
+            t = t + c
+        if len(t) == 0:
+            return None
+        return t
+
+    def get(self, key, default=None):
+        return self.attrib.get(key, default)
+
+    def __iter__(self):
+        return iter(list(self.children))
+
+    def __len__(self):
+        return len(self.children)
+
+    def __getitem__(self, i):
+        return self.children[i]
+
+    def find(self, path):
+        r = self.findall(path)
+        return r[0] if r else None
+
+    def findall(self, path):
+        steps = []
+        cur_step = ""
+        depth = 0
+        for ch in path:           # "/" separates steps except inside a {namespace}
+            if ch == "{":
+                depth += 1
+            elif ch == "}":
+                depth -= 1
+            if ch == "/" and depth == 0:
+                steps.append(cur_step)
+                cur_step = ""
+            else:
+                cur_step += ch
+        steps.append(cur_step)
+        cur = [self]
+        for step in steps:
+            if step in (".", ""):
+                continue
+            cur = [c for e in cur for c in e.children if c.tag == step]
+        return cur
+
+    def getroot(self):
+        return self
+
+
+class _EtreeShim:
+    """stands for the xml.etree.ElementTree module inside xmlresults: parse() hands out the recorded tree"""
+
+    def __init__(self, tree):
+        self._tree = tree
+
+    def XMLParser(self, *a, **kw):
+        return None
+
+    def parse(self, source, parser=None):
+        return self._tree
+
+
+def _with_xml_module(fn):
+    import rdflib.plugins.sparql.results.xmlresults as xr
+    saved = (xr.URIRef, xr.Literal, xr.BNode, xr.XMLGenerator, xr.xml_etree, xr.FOUND_LXML)
+    xr.URIRef, xr.Literal, xr.BNode, xr.XMLGenerator, xr.FOUND_LXML = RecURI, RecLit, RecBNode, RecGen, False
+    try:
+        return fn(xr)
+    finally:
+        xr.URIRef, xr.Literal, xr.BNode, xr.XMLGenerator, xr.xml_etree, xr.FOUND_LXML = saved
+
+
+RES_NS = "{http://www.w3.org/2005/sparql-results#}"
+
+
+def _xml_roundtrip(xr, res):
+    """serialize through the real XMLResultSerializer / SPARQLXMLWriter into a recorded tree, read it with the real XMLResult"""
+    ser = xr.XMLResultSerializer(res)
+    ser.serialize(_Stream())
+    # the writer object is local to serialize(): the generator instance is found through the class-level registry below
+    tree = RecGen.last.root
+    if tree is None or tree.tag != RES_NS + "sparql":
+        return None, "the document element is not sparql:sparql"
+    if RecGen.last.stack:
+        return None, "the writer leaves elements open"
+    xr.xml_etree = _EtreeShim(tree)
+    return xr.XMLResult(_Stream()), None
+
+
+_orig_recgen_init = RecGen.__init__
+
+
+def _recgen_init(self, *a, **kw):
+    _orig_recgen_init(self, *a, **kw)
+    RecGen.last = self
+
+
+RecGen.__init__ = _recgen_init
+RecGen.last = None
+
+
+def k_xml_table(desc, F, *args):
+    """a SELECT result table through XMLResultSerializer / SPARQLXMLWriter -> (recorded element tree) -> XMLResult / parseTerm"""
+    from rdflib.term import Variable
+    names = ["a", "b"]
+    rows = []
+    i = 0
+    for cells in TABLES[desc["table"]]:
+        row = {}
+        for n, kind in zip(names, cells):
+            if kind is not None:
+                row[Variable(n)] = _mk(kind, args[i], args[i + 1])
+                i += 2
+        rows.append(row)
+    # SPARQL XML cannot express an IRI or blank node label without characters, nor an empty language tag / datatype IRI (no RDF
+    # term has those): the property speaks about terms
+    for row in rows:
+        for t in row.values():
+            if t.kind != "literal" and len(t.text) == 0:
+                return None
+            if t.kind == "literal" and t.language is not None and len(t.language) == 0:
+                return None
+            if t.kind == "literal" and t.datatype is not None and len(str(t.datatype)) == 0:
+                return None
+    res = _Res()
+    res.type = "SELECT"
+    res.vars = [Variable(n) for n in names]
+    res.bindings = rows
+    res.askAnswer = None
+
+    def run(xr):
+        back, err = _xml_roundtrip(xr, res)
+        if err:
+            return err
+        if back.type != "SELECT":
+            return "a SELECT result is read back as %s" % back.type
+        if [str(v) for v in back.vars] != names:
+            return "variables differ after the round trip"
+        got = list(back.bindings)
+        if len(got) != len(rows):
+            return "number of rows differs after the round trip"
+        for r0, r1 in zip(rows, got):
+            for n in names:
+                v = Variable(n)
+                t0 = r0.get(v)
+                t1 = r1.get(v)
+                if (t0 is None) != (t1 is None):
+                    return "a cell changes between bound and unbound"
+                if t0 is not None and not t0.same(t1):
+                    return "a cell holds a different term after the round trip"
+        return None
+
+    return _with_xml_module(run)
+
+
+def k_xml_ask(desc, F, x):
+    res = _Res()
+    res.type = "ASK"
+    res.askAnswer = bool(x != 0)
+    res.vars = None
+    res.bindings = []
+
+    def run(xr):
+        back, err = _xml_roundtrip(xr, res)
+        if err:
+            return err
+        if back.type != "ASK" or bool(back.askAnswer) != bool(res.askAnswer):
+            return "the ASK answer changes in the round trip"
+        return None
+
+    return _with_xml_module(run)
+
+
+BODIES = {"k-json-term": k_json_term, "k-json-table": k_json_table, "k-json-ask": k_json_ask, "k-xml-table": k_xml_table, "k-xml-ask": k_xml_ask}
 
 
 def obligations(tier, seed):
@@ -258,6 +499,12 @@ def obligations(tier, seed):
         obs.append(dict(oid="K/json-table/%s" % name, family="k-json-table", desc={"table": name}, sig=sig,
                         pre=["len(%s) <= 1" % nm for nm, _ in sig], budget=300))
     obs.append(dict(oid="K/json-ask", family="k-json-ask", desc={}, sig=[("x", "i")], budget=60))
+    for name, rows in TABLES.items():
+        cells = sum(1 for r in rows for c in r if c is not None)
+        sig = [("s%d" % i, "s") for i in range(2 * cells)] or [("s0", "s")]
+        obs.append(dict(oid="K/xml-table/%s" % name, family="k-xml-table", desc={"table": name}, sig=sig,
+                        pre=["len(%s) <= 1" % nm for nm, _ in sig], budget=300))
+    obs.append(dict(oid="K/xml-ask", family="k-xml-ask", desc={}, sig=[("x", "i")], budget=60))
     return obs
 
 
@@ -268,7 +515,11 @@ def bounds(tier):
             "k-json-table": "6 table shapes over two variables (bound/unbound cells, all-unbound rows, no rows, repeated blank node), cell "
                             "contents symbolic strings of length <= 1",
             "k-json-ask": "both boolean results",
-            "outside": "JSON text (json / orjson), SPARQL XML, CSV, TSV, term contents interpreted by the codecs, Result.serialize/parse plugin dispatch"}
+            "k-xml-table": "the same 6 table shapes through the SPARQL-XML writer and reader at the level of the element structure; premise: IRIs, "
+                           "blank node labels, language tags and datatype IRIs are non-empty (no RDF term has an empty one; SPARQL-XML cannot "
+                           "tell an absent from an empty attribute)",
+            "k-xml-ask": "both boolean results",
+            "outside": "the text level of JSON and XML (json / orjson, XMLGenerator escaping, expat / lxml), CSV, TSV, Result.serialize/parse plugin dispatch"}
 
 
 def finding_key(ob, cex, reason):
